@@ -215,6 +215,15 @@ func leaves(fn *ssa.Function, opt LeafOptions) ([]*Leaf, error) {
 // error, never a truncation); φ-nodes are then bound to the term of the incoming
 // value at the time the edge is taken.
 func enumerate(fn *ssa.Function, opt LeafOptions, cx *callCtx, cut bool) ([]*Leaf, error) {
+	// deferred calls run after the results are set and may change them (and recover from panics): not modelled
+	for _, blk := range fn.Blocks {
+		for _, in := range blk.Instrs {
+			switch in.(type) {
+			case *ssa.Defer, *ssa.RunDefers, *ssa.Go, *ssa.Select, *ssa.Send:
+				return nil, fmt.Errorf("%s: %T is outside the path model (deferred calls, goroutines and channel operations are not followed)", fn.String(), in)
+			}
+		}
+	}
 	var out []*Leaf
 	onPath := map[*ssa.BasicBlock]int{}
 	steps := 0
